@@ -68,6 +68,11 @@ fn c08_work(seed: u64, tier: Tier, idx: u64) -> Option<Scenario> {
 
 fn c02_work(seed: u64, tier: Tier, idx: u64) -> Option<Scenario> {
     let random = if tier == Tier::Quick { 12_000 } else { 600_000 };
+    // first the nesting ladder on the deployed stack size, then the seeded sessions
+    if idx < c02::LADDER {
+        return Some(c02::ladder(seed, idx));
+    }
+    let idx = idx - c02::LADDER;
     if idx < random {
         Some(c02::generate(seed, idx))
     } else {
